@@ -213,7 +213,8 @@ def check_g7(pid, tier):
         trusted=trusted | {"A8: third-party encoders/decoders (orjson, msgpack, tomli, tomli_w, yaml, json) are opaque and total on their representable subset",
                            "first calls are executed natively once per entry point to make the stubs compile (their outcome is an obligation, the proof is on the compiled text)"},
         functions=["CodeBuilder._add_unpack_method_lines_lazy / _add_pack_method_lines_lazy / _add_*_method_with_dialect_lines / _add_setattr_method / add_pack_method / add_unpack_method (through the texts they produce)",
-                   "compile_mixin_packer / compile_mixin_unpacker wiring (params obligations)"],
+                   "compile_mixin_packer / compile_mixin_unpacker wiring (params obligations)"]
+        + (["dialect.py:Dialect.merge (S2: whole-view postcondition + frame, real AST, pointwise loop rule)"] if pid == "C13" else []),
         crashes=crashes,
     )
 
